@@ -224,12 +224,22 @@ func (e *Exec) gep(base *PtrVal, srcTy *Type, idx []Val) *PtrVal {
 	off := base.Off
 	add := func(t *sym.Term) { off = sym.Add(off, t) }
 	cur := srcTy
+	var lim *sym.Term
+	if len(idx) == 1 {
+		lim = base.Lim // plain pointer arithmetic stays inside the array the pointer came from
+	}
 	for i, iv := range idx {
 		ix := asTerm(iv)
 		ix64 := sym.Resize(ix, 64, true)
 		if i == 0 {
 			add(sym.Mul(ix64, sym.BV(uint64(cur.Size()), 64)))
 			continue
+		}
+		if cur.K == TArray && cur.N > 0 {
+			// C semantics: a subscript beyond one-past-the-end of the array is undefined, and the
+			// element one past the end must not be accessed (checked at the access through Lim)
+			e.requireUB(sym.ULE(ix64, sym.BV(uint64(cur.N), 64)), fmt.Sprintf("array subscript beyond [%d x %s]", cur.N, cur.Elem))
+			lim = sym.Add(off, sym.BV(uint64(cur.N*cur.Elem.Size()), 64))
 		}
 		switch cur.K {
 		case TStruct:
@@ -246,7 +256,7 @@ func (e *Exec) gep(base *PtrVal, srcTy *Type, idx []Val) *PtrVal {
 			e.unsupported("getelementptr into %s", cur)
 		}
 	}
-	return &PtrVal{Obj: base.Obj, Off: off, Fn: base.Fn}
+	return &PtrVal{Obj: base.Obj, Off: off, Fn: base.Fn, Lim: lim}
 }
 
 // access validates [off, off+size) against the object and returns a concrete offset or the
@@ -260,6 +270,9 @@ func (e *Exec) access(p *PtrVal, size int, what string) (int, []int) {
 	}
 	if p.Obj.Dead {
 		panic(pathEnd{"ub", what + " of an object whose lifetime has ended (" + p.Obj.Name + ") @ " + e.stack()})
+	}
+	if p.Lim != nil {
+		e.requireUB(sym.ULE(sym.Add(p.Off, sym.BV(uint64(size), 64)), p.Lim), what+" beyond the end of the array being indexed (inside a larger object)")
 	}
 	off := p.Off
 	if !off.IsConst() {
